@@ -130,6 +130,9 @@ func unwrap(o geojson.Object) geojson.Object {
 func c10Collection(r *rand.Rand, kind string, anchor *exact.Shape, n int, parseable bool) *Node {
 	c := &Node{Kind: kind}
 	leafKinds := []string{"Point", "LineString", "Polygon", "Rect", "SimplePoint", "MultiPoint", "MultiPolygon", "Feature", "GeometryCollection"}
+	if !parseable && r.Intn(4) == 0 {
+		leafKinds = append(leafKinds, "Circle", "Circle")
+	}
 	var dup *Node
 	for i := 0; i < n; i++ {
 		var ch *Node
@@ -242,6 +245,7 @@ func c10Structure(c *mon.Ctx, nc *Node, oc geojson.Object, build string, r *rand
 	}
 	// order: each child serialises like the model child at the same place
 	allEmpty, np := true, 0
+	orderBad := false
 	var rect geometry.Rect
 	first := true
 	for i, k := range ch {
@@ -255,10 +259,10 @@ func c10Structure(c *mon.Ctx, nc *Node, oc geojson.Object, build string, r *rand
 			}
 		}
 		np += k.NumPoints()
-		if wantFirst := firstPos(nc.Children[i]); wantFirst != nil {
+		if wantFirst := firstPos(nc.Children[i]); wantFirst != nil && !orderBad {
 			if gotFirst := firstPosObj(k); gotFirst == nil || *gotFirst != *wantFirst {
 				c.Violation("child-order", "children are not in document order", mk(fmt.Sprintf("Children()[%d]", i), fmt.Sprint(gotFirst), fmt.Sprint(*wantFirst)))
-				break
+				orderBad = true
 			}
 		}
 	}
@@ -362,6 +366,9 @@ func firstPosObj(o geojson.Object) *geometry.Point {
 	case *geojson.Rect:
 		p := v.Base().Min
 		return &p
+	case *geojson.Circle:
+		p := v.Center()
+		return &p
 	case *geojson.Feature:
 		return firstPosObj(v.Base())
 	case geojson.Collection:
@@ -437,6 +444,13 @@ func c10Run(c *mon.Ctx) {
 				}
 				c.Count("circle_probes")
 			}
+			if hasKind(nc, "Circle") {
+				if !circleBandClear(nc, nx) {
+					c.Inconclusive("a position of the probe lies in the band where a circle child's rectangle pre-filter and its exact-distance test may differ")
+					continue
+				}
+				c.Count("collections_with_circle_children")
+			}
 			ox := nx.Build(nil)
 			c.SetCase(func() interface{} { return c10Case{Collection: nc.Describe(), Probe: nx.Describe(), Build: build} })
 			c.Try(func() { c10Check(c, nc, nx, oc, ox, build) })
@@ -468,7 +482,7 @@ func c10Run(c *mon.Ctx) {
 }
 
 func init() {
-	must := []string{"circle_probes", "indexed_collections", "unindexed_collections", "built_by_parse", "built_by_constructors", "searches_proper_subset", "search_early_stops", "intersects_true", "contains_true", "within_true", "indexed_vs_unindexed"}
+	must := []string{"collections_with_circle_children", "circle_probes", "indexed_collections", "unindexed_collections", "built_by_parse", "built_by_constructors", "searches_proper_subset", "search_early_stops", "intersects_true", "contains_true", "within_true", "indexed_vs_unindexed"}
 	for _, k := range collKinds {
 		must = append(must, "kind "+k)
 	}
